@@ -155,7 +155,11 @@ def main() -> int:
     floors_failed = []
     # floors only judge a complete, quiet run: a failing part stops early (and shrinking
     # adds evaluations), which would turn a detected violation into a harness error
-    for cls, frac in ({} if (args.part or violations) else getattr(mod, "FLOORS", {})).items():
+    incomplete = bool(notes.get("skipped_time_budget") or notes.get("enumeration_incomplete"))
+    if incomplete and getattr(mod, "FLOORS", {}):
+        notes["floors_not_judged_run_cut_by_time_budget"] = 1
+    for cls, frac in ({} if (args.part or violations or incomplete)
+                      else getattr(mod, "FLOORS", {})).items():
         if evaluations and classes.get(cls, 0) < frac * evaluations:
             floors_failed.append(f"class {cls}: {classes.get(cls, 0)} < {frac}*{evaluations}")
 
